@@ -16,6 +16,7 @@ package neutrino
 // the block-header chain, and the honest peer must never be banned.
 
 import (
+	"github.com/btcsuite/btcd/chaincfg/v2"
 	"github.com/btcsuite/btcd/chainhash/v2"
 	"github.com/btcsuite/btcd/wire/v2"
 	"github.com/lightninglabs/neutrino/blockntfns"
@@ -135,6 +136,16 @@ func VerifH_C03_cfHandler() {
 	if recent {
 		opt.timeBase = vpNowUnix - 2*3600
 	}
+	// the network may have a hard-coded block checkpoint at height 4: below it
+	// the client is not current, and filter checkpoints are asked for up to
+	// the checkpoint block rather than the block tip
+	cp := 4 * vpRange("blockCheckpointAtHeight4", 0, 1)
+	if cp > 0 {
+		opt.prep = func(e *vpBMEnv, p *chaincfg.Params) {
+			h := e.chain[cp].BlockHash()
+			p.Checkpoints = append(p.Checkpoints, chaincfg.Checkpoint{Height: int32(cp), Hash: &h})
+		}
+	}
 	e := vpNewBMEnvOpt(n, bt0, 0, vpRegtestParams(), opt)
 	if e == nil {
 		return
@@ -228,9 +239,13 @@ func VerifH_C03_cfHandler() {
 	ft1 := len(e.fs.hashes) - 1
 	// (how far a pass gets is not a C03 matter: progress is recorded through
 	// the reach labels the check insists on, a different extent is a note)
+	synced1 := recent && bt0 > cp
 	if !w.failed {
-		if (recent && ft1 == bt0) || (!recent && ft1 == 2*(bt0/2)) {
+		if (synced1 && ft1 == bt0) || (!synced1 && ft1 == 2*(bt0/2)) {
 			vpReach("first-pass-completed")
+			if cp > bt0 {
+				vpReach("filter-checkpoints-asked-for-up-to-the-block-checkpoint")
+			}
 		} else {
 			vpNote("cfh:first-pass-ends-elsewhere")
 		}
@@ -252,12 +267,13 @@ func VerifH_C03_cfHandler() {
 		ft2 := len(e.fs.hashes) - 1
 		vpAssert(ft2 >= ft1, "cfh:nothing-lost")
 		if !w.failed {
+			synced2 := recent && bt1 > cp
 			switch {
-			case recent && ft2 == bt1:
+			case synced2 && ft2 == bt1:
 				vpReach("caught-up-at-tip-after-growth")
-			case !recent && ft1+2 <= bt1 && ft2 == 2*(bt1/2):
+			case !synced2 && ft1+2 <= bt1 && ft2 == 2*(bt1/2):
 				vpReach("second-checkpointed-pass-completed")
-			case recent || ft1+2 <= bt1:
+			case synced2 || ft1+2 <= bt1:
 				vpNote("cfh:second-pass-ends-elsewhere")
 			}
 		}
